@@ -46,6 +46,42 @@ theorem isoCallLoopIn_spec (allowed : RaiseSet) (id : String) (s : Stmt)
       obtain ⟨tr', h1, h2, _⟩ := iso_loopN_calls allowed env hfi id body h.1 site hfc (env.iters tr id) 0 tr
       exact ⟨tr', by simpa [exec] using h1, fun j hj => h2 j (Nat.zero_le _) (by omega)⟩
 
+/-- the same for the loop named by position (`lastLoop`) -/
+theorem isoLastLoop_spec (allowed : RaiseSet) (s : Stmt) (h : IsoLastLoop allowed s = true) :
+    ∃ id body, lastLoop s = some (id, body) ∧
+      ∀ env, FaultsIn allowed env → ∀ tr, ∃ tr', exec env (.loop id body) tr = (.normal, tr') ∧
+        (∀ j, j < env.iters tr id → Ev.iter id j ∈ tr') ∧ (∀ ev ∈ tr, ev ∈ tr') := by
+  unfold IsoLastLoop at h
+  cases hf : lastLoop s with
+  | none => simp [hf] at h
+  | some p =>
+    obtain ⟨id, body⟩ := p
+    simp only [hf] at h
+    exact ⟨id, body, rfl, fun env hfi tr => iso_loop allowed env hfi id body h tr⟩
+
+/-- the last loop of `s` is isolated and each iteration starts with a call (the callback) -/
+def IsoCallLastLoop (allowed : RaiseSet) (s : Stmt) : Bool :=
+  match lastLoop s with
+  | some (_, b) => IsoBody allowed b && (firstCall b).isSome
+  | none => false
+
+theorem isoCallLastLoop_spec (allowed : RaiseSet) (s : Stmt) (h : IsoCallLastLoop allowed s = true) :
+    ∃ id body site, lastLoop s = some (id, body) ∧ firstCall body = some site ∧
+      ∀ env, FaultsIn allowed env → ∀ tr, ∃ tr', exec env (.loop id body) tr = (.normal, tr') ∧
+        (∀ j, j < env.iters tr id → ∃ f, Adjacent (Ev.call site f) (Ev.iter id j) tr') := by
+  unfold IsoCallLastLoop at h
+  cases hf : lastLoop s with
+  | none => simp [hf] at h
+  | some p =>
+    obtain ⟨id, body⟩ := p
+    simp only [hf, Bool.and_eq_true] at h
+    cases hfc : firstCall body with
+    | none => simp [hfc] at h
+    | some site =>
+      refine ⟨id, body, site, rfl, hfc, fun env hfi tr => ?_⟩
+      obtain ⟨tr', h1, h2, _⟩ := iso_loopN_calls allowed env hfi id body h.1 site hfc (env.iters tr id) 0 tr
+      exact ⟨tr', by simpa [exec] using h1, fun j hj => h2 j (Nat.zero_le _) (by omega)⟩
+
 /-- a statement that starts with the call `site` makes that call, whatever happens afterwards -/
 theorem exec_firstCall_mem (env : Env) (s : Stmt) (site : String) (hfc : firstCall s = some site)
     (tr : Trace) (o : Out) (tr' : Trace) (h : exec env s tr = (o, tr')) : ∃ f, Ev.call site f ∈ tr' := by
